@@ -1329,6 +1329,125 @@ def gen_counter_tables():
 
 
 # ----------------------------------------------------------------------------------------------
+# C02 (growth): the protocol between the writers of the count / TPM files and `src/stats.py combine_counts`
+# (slice constant of transform_counts, join key / kind of combine_table, the four combine_table calls, the header
+# written by format_header, the renaming of the value column and the `__unassigned` line of convert_counts_to_tpm)
+
+def gen_combine_tables():
+    tree = parse("src/stats.py")
+    tc = find_def(tree, "transform_counts")
+    # df_features = df.copy() if full else df[:-N].copy()
+    tails = []
+    for n in ast.walk(tc):
+        if isinstance(n, ast.IfExp):
+            if not (isinstance(n.test, ast.Name) and n.test.id == "full"):
+                raise TranslationError("transform_counts: the conditional is not `... if full else ...`")
+            for sub in ast.walk(n.orelse):
+                if isinstance(sub, ast.Subscript) and isinstance(sub.slice, ast.Slice):
+                    sl = sub.slice
+                    if sl.lower is not None or sl.step is not None or not (
+                            isinstance(sl.upper, ast.UnaryOp) and isinstance(sl.upper.op, ast.USub)
+                            and isinstance(sl.upper.operand, ast.Constant) and isinstance(sl.upper.operand.value, int)):
+                        raise TranslationError("transform_counts: slice is not df[:-N]")
+                    tails.append(sl.upper.operand.value)
+            if any(isinstance(sub, ast.Subscript) for sub in ast.walk(n.body)):
+                raise TranslationError("transform_counts: the `full` branch slices the table")
+    if len(tails) != 1:
+        raise TranslationError("transform_counts: expected exactly one df[:-N] slice, got %s" % tails)
+    renames = [n for n in ast.walk(tc) if isinstance(n, ast.Call) and isinstance(n.func, ast.Attribute) and n.func.attr == "rename"]
+    if len(renames) != 1:
+        raise TranslationError("transform_counts: expected one rename call")
+    kw = {k.arg: k.value for k in renames[0].keywords}
+    if not (isinstance(kw.get("columns"), ast.Dict) and len(kw["columns"].keys) == 1
+            and isinstance(kw["columns"].keys[0], ast.Name) and kw["columns"].keys[0].id == "column_name"
+            and isinstance(kw["columns"].values[0], ast.Name) and kw["columns"].values[0].id == "label"):
+        raise TranslationError("transform_counts: rename is not columns={column_name: label}")
+    ct = find_def(tree, "combine_table")
+    merges = [n for n in ast.walk(ct) if isinstance(n, ast.Call) and isinstance(n.func, ast.Attribute) and n.func.attr == "merge"]
+    if len(merges) != 1:
+        raise TranslationError("combine_table: expected one pd.merge call")
+    mkw = {k.arg: k.value for k in merges[0].keywords}
+    if not all(isinstance(mkw.get(k), ast.Constant) and isinstance(mkw[k].value, str) for k in ("on", "how")):
+        raise TranslationError("combine_table: pd.merge without literal on= / how=")
+    if set(mkw) - {"on", "how"}:
+        raise TranslationError("combine_table: unexpected pd.merge keywords %s" % sorted(set(mkw) - {"on", "how"}))
+    # the transform_counts calls inside combine_table take the sample prefix as label
+    for n in ast.walk(ct):
+        if isinstance(n, ast.Call) and isinstance(n.func, ast.Name) and n.func.id == "transform_counts":
+            if not (len(n.args) == 4 and isinstance(n.args[1], ast.Attribute) and n.args[1].attr == "prefix"
+                    and isinstance(n.args[2], ast.Name) and n.args[2].id == "column_name"
+                    and isinstance(n.args[3], ast.Name) and n.args[3].id == "full"):
+                raise TranslationError("combine_table: unexpected transform_counts call %s" % ast.unparse(n))
+    ct_defaults = dict(zip([a.arg for a in ct.args.args][-len(ct.args.defaults):], ct.args.defaults))
+    d_col, d_full = ct_defaults.get("column_name"), ct_defaults.get("full")
+    if not (isinstance(d_col, ast.Constant) and isinstance(d_full, ast.Constant)):
+        raise TranslationError("combine_table: defaults of column_name / full not literal")
+    cc = find_def(tree, "combine_counts")
+    calls = []
+    for n in ast.walk(cc):
+        if isinstance(n, ast.Call) and isinstance(n.func, ast.Name) and n.func.id == "combine_table":
+            if len(n.args) != 4 or not isinstance(n.args[2], ast.Lambda):
+                raise TranslationError("combine_counts: unexpected combine_table call %s" % ast.unparse(n))
+            lam = n.args[2].body
+            if not (isinstance(lam, ast.BinOp) and isinstance(lam.op, ast.Add) and isinstance(lam.left, ast.Attribute)
+                    and isinstance(lam.right, ast.Constant) and isinstance(lam.right.value, str)):
+                raise TranslationError("combine_counts: file-name lambda is not `x.<attr> + <str>`")
+            if not (isinstance(n.args[3], ast.Constant) and isinstance(n.args[3].value, str)):
+                raise TranslationError("combine_counts: output file name not literal")
+            k = {x.arg: x.value for x in n.keywords}
+            if set(k) - {"column_name", "full"} or not all(isinstance(v, ast.Constant) for v in k.values()):
+                raise TranslationError("combine_counts: unexpected keywords in %s" % ast.unparse(n))
+            calls.append((lam.left.attr, lam.right.value, n.args[3].value,
+                          k["column_name"].value if "column_name" in k else d_col.value,
+                          bool(k["full"].value) if "full" in k else bool(d_full.value)))
+    if not calls:
+        raise TranslationError("combine_counts: no combine_table call found")
+    ltree = parse("src/long_read_counter.py")
+    fh = find_def(ltree, "format_header", "AssignedFeatureCounter")
+    fh_defaults = dict(zip([a.arg for a in fh.args.args][-len(fh.args.defaults):], fh.args.defaults))
+    if not (isinstance(fh_defaults.get("value_name"), ast.Constant) and isinstance(fh_defaults["value_name"].value, str)):
+        raise TranslationError("format_header: default of value_name not a string literal")
+    hdr = [c for c in _str_consts(fh) if c.startswith("#") and c.endswith("\t%s\n")]
+    if len(hdr) != 1:
+        raise TranslationError("format_header: ungrouped header literal not found")
+    header_key = hdr[0][:-len("\t%s\n")]
+    for n in ast.walk(find_def(ltree, "dump_ungrouped", "AssignedFeatureCounter")):
+        if isinstance(n, ast.Call) and isinstance(n.func, ast.Attribute) and n.func.attr == "format_header":
+            if len(n.args) != 1 or n.keywords:
+                raise TranslationError("dump_ungrouped: format_header called with a value name")
+    conv = find_def(ltree, "convert_counts_to_tpm", "AssignedFeatureCounter")
+    repl = [n for n in ast.walk(conv) if isinstance(n, ast.Call) and isinstance(n.func, ast.Attribute) and n.func.attr == "replace"]
+    if len(repl) != 1 or len(repl[0].args) != 2 or not all(isinstance(a, ast.Constant) and isinstance(a.value, str) for a in repl[0].args):
+        raise TranslationError("convert_counts_to_tpm: expected one header `replace(<str>, <str>)`")
+    un = [c for c in _str_consts(conv) if c.startswith("__")]
+    if len(un) != 1:
+        raise TranslationError("convert_counts_to_tpm: expected one `__` line name, got %s" % un)
+    q = json.dumps
+    b = lambda x: "true" if x else "false"
+    out = ["-- GENERATED by harness/translate.py from src/stats.py, src/long_read_counter.py -- do not edit",
+           "namespace IsoVerif.Gen", "",
+           "/-- `transform_counts`: number of trailing lines dropped from a table that is not read `full` (`df[:-N]`) -/",
+           "def combine_dropped_tail : Nat := %d" % tails[0],
+           "/-- `combine_table`: `pd.merge(..., on=, how=)` -/",
+           "def combine_join_key : String := %s" % q(mkw["on"].value),
+           "def combine_join_how : String := %s" % q(mkw["how"].value),
+           "/-- the `combine_table` calls of `combine_counts`: (sample attribute, file suffix, output file, column_name, full) -/",
+           "def combine_calls : List (String × String × String × String × Bool) := [" +
+           ", ".join("(%s, %s, %s, %s, %s)" % (q(a), q(s), q(o), q(c), b(f)) for a, s, o, c, f in calls) + "]",
+           "/-- header of an ungrouped counts file (`format_header`): first column, value column -/",
+           "def counts_header_key : String := %s" % q(header_key),
+           "def counts_header_value : String := %s" % q(fh_defaults["value_name"].value),
+           "/-- `convert_counts_to_tpm` renames the value column of an ungrouped table with `line.replace(a, b)` -/",
+           "def tpm_header_replace : String × String := (%s, %s)" % (q(repl[0].args[0].value), q(repl[0].args[1].value)),
+           "/-- the extra line `convert_counts_to_tpm` appends to an ungrouped TPM table -/",
+           "def tpm_unassigned_name : String := %s" % q(un[0]),
+           "", "end IsoVerif.Gen", ""]
+    return "\n".join(out), {"combine_dropped_tail": tails[0], "join": [mkw["on"].value, mkw["how"].value],
+                             "combine_calls": [list(c) for c in calls], "header": [header_key, fh_defaults["value_name"].value],
+                             "tpm_header_replace": [a.value for a in repl[0].args], "tpm_unassigned_name": un[0]}
+
+
+# ----------------------------------------------------------------------------------------------
 # C02: direct translation of ReadWeightCounter.process_ambiguous / process_inconsistent
 # supported subset: `if` / `else` with `return` on every path (fall-through to the following statements),
 # tests built from and / or / not, `==`/`!=`/`<`/`<=`/`>`/`>=` between `feature_count` and an int literal,
@@ -2596,6 +2715,7 @@ GENERATORS = [("Prims", gen_prims), ("Enums", gen_enums), ("EventClasses", gen_e
               ("SetSites", gen_set_sites),            # C06
               ("Corrector", gen_corrector), ("Illumina", gen_illumina),   # C14
               ("CounterTables", gen_counter_tables), ("Weights", gen_weights),   # C02
+              ("CombineTables", gen_combine_tables),   # C02 (combine_counts protocol)
               ("CacheProtocol", gen_cache_protocol),   # C20
               ("SampleState", gen_sample_state),       # C10
               ("ReadGroups", gen_read_groups),         # C09
